@@ -669,14 +669,16 @@ func (em *emitter) emitCallNode(call *ast.Call, goStmt bool, deferStmt bool, toF
 			callHasDots:   call.IsVariadic,
 		}
 		regs, types := em.prepareCallParameters(funTi.Type, call.Args, opts)
-		// TODO(Gianluca): handle variadic method calls.
+		numVar := em.numVariadicArgs(funTi.Type, call)
 		if goStmt {
 			em.fb.emitGo()
 		}
 		if deferStmt {
-			panic(internalError("not implemented"))
+			args := em.fb.currentStackShift()
+			em.fb.emitDefer(method, int8(numVar), stackShift, args, funTi.Type)
+			return regs, types
 		}
-		em.fb.emitCallIndirect(method, 0, stackShift, call.Pos(), funTi.Type, toFormat)
+		em.fb.emitCallIndirect(method, int8(numVar), stackShift, call.Pos(), funTi.Type, toFormat)
 		return regs, types
 	}
 
@@ -700,20 +702,7 @@ func (em *emitter) emitCallNode(call *ast.Call, goStmt bool, deferStmt bool, toF
 		if goStmt {
 			em.fb.emitGo()
 		}
-		numVar := runtime.NoVariadicArgs
-		if funTi.Type.IsVariadic() && !call.IsVariadic {
-			// Compute variadic arity from user call arguments:
-			// in concrete method calls, args also includes the receiver argument.
-			numArgs := len(call.Args)
-			if len(call.Args) == 1 {
-				if callArg, ok := call.Args[0].(*ast.Call); ok {
-					if numOut, ok := em.numOut(callArg); ok {
-						numArgs = numOut
-					}
-				}
-			}
-			numVar = numArgs - (funTi.Type.NumIn() - 1)
-		}
+		numVar := em.numVariadicArgs(funTi.Type, call)
 		if deferStmt {
 			args := em.fb.currentStackShift()
 			reg := em.fb.newRegister(reflect.Func)
@@ -795,6 +784,26 @@ func (em *emitter) emitCallNode(call *ast.Call, goStmt bool, deferStmt bool, toF
 	em.fb.emitCallIndirect(reg, int8(runtime.NoVariadicArgs), stackShift, call.Pos(), funTi.Type, toFormat)
 
 	return regs, types
+}
+
+// numVariadicArgs returns the number of variadic arguments that the call
+// passes, each in its own register, to a native function of type typ. It
+// returns runtime.NoVariadicArgs if typ is not variadic or if the variadic
+// arguments are passed as a slice.
+func (em *emitter) numVariadicArgs(typ reflect.Type, call *ast.Call) int {
+	if !typ.IsVariadic() || call.IsVariadic {
+		return runtime.NoVariadicArgs
+	}
+	// Compute variadic arity from user call arguments.
+	numArgs := len(call.Args)
+	if len(call.Args) == 1 {
+		if callArg, ok := call.Args[0].(*ast.Call); ok {
+			if numOut, ok := em.numOut(callArg); ok {
+				numArgs = numOut
+			}
+		}
+	}
+	return numArgs - (typ.NumIn() - 1)
 }
 
 // emitBuiltin emits instructions for a builtin call, writing the result, if
